@@ -203,6 +203,11 @@ func newMachine(rt *rapid.T, o machineOpts) *machine {
 				}
 				d.Sources[i].Stop = uint64(rapid.IntRange(lo, lo+12).Draw(rt, "stop"))
 			}
+			if rapid.IntRange(0, 3).Draw(rt, "numbersasstrings") == 0 {
+				// start / stop given as (zero-padded) decimal strings
+				d.Sources[i].Pad = rapid.IntRange(1, 6).Draw(rt, "pad")
+				m.label("start-stop-as-strings")
+			}
 		}
 	}
 	w, err := NewWorld(rt, sources, m.decls)
